@@ -385,6 +385,10 @@ def s_isinstance(o, t):
     return _b.isinstance(o, ts)
 
 
+def _intlike(v):
+    return _b.isinstance(v, (_b.int, SInt)) and not _b.isinstance(v, _b.bool)
+
+
 def s_max(*a, **k):
     if len(a) == 1 and not k:
         a = tuple(a[0])
@@ -398,8 +402,10 @@ def s_max(*a, **k):
             r = x._sym_max(r)
         elif hasattr(r, '_sym_max'):
             r = r._sym_max(x)
-        else:
+        elif _intlike(x) and _intlike(r):
             r = ite(x > r, x, r)
+        else:
+            r = x if _b.bool(x > r) else r       # mixed int/float: the result keeps the winner's type, so fork
     return r
 
 
@@ -416,8 +422,10 @@ def s_min(*a, **k):
             r = x._sym_min(r)
         elif hasattr(r, '_sym_min'):
             r = r._sym_min(x)
-        else:
+        elif _intlike(x) and _intlike(r):
             r = ite(x < r, x, r)
+        else:
+            r = x if _b.bool(x < r) else r
     return r
 
 
